@@ -213,6 +213,16 @@ let rw_touches_hidden (rw : rewrite option) : bool =
       || List.exists (fun a -> int_of_n a.tlv_t = 69) (w.rw_add @ w.rw_sup)
       || List.exists (fun a -> int_of_n a.tlv_t = 26 && List.length a.tlv_v > 4 && List.map int_of_n (take 4 a.tlv_v) = [ 0; 0; 1; 55 ]) (w.rw_add @ w.rw_sup)
 
+(* does a rewrite block name plain attribute type t? *)
+let rw_touches (t : int) (rw : rewrite option) : bool =
+  match rw with
+  | None -> false
+  | Some w ->
+      w.rw_whitelist
+      || (match w.rw_rm with Some l -> List.exists (fun x -> int_of_n x = t) l | None -> false)
+      || List.exists (fun m -> int_of_n m.mod_t = t) w.rw_mod
+      || List.exists (fun a -> int_of_n a.tlv_t = t) (w.rw_add @ w.rw_sup)
+
 let impl_events (impl_all : string list list) (kind : string) : string list list =
   List.filter_map (function k :: rest when k = kind -> Some rest | _ -> None) impl_all
 
@@ -394,6 +404,50 @@ let check_tx opidx impl_all now =
        | _ -> ())
     | _ -> ()) (impl_events impl_all "tx")
 
+(* request-side policy on the implementation's own observations (C05 RequireMessageAuthenticator(/Proxy),
+   C13 loop prevention): what must NOT be placed in a server table *)
+let check_request_policy opidx impl_all c (pkt : n list) =
+  let enqs = impl_events impl_all "enq" in
+  (match List.assoc_opt c !clients with
+   | Some cc when wf_packet pkt ->
+       let attrs = attr_list pkt in
+       let has t = List.exists (fun (t', _, _) -> t' = t) attrs in
+       let code = match pkt with x :: _ -> int_of_n x | [] -> -1 in
+       let plain = int_of_n cc.cc_type = 0 || int_of_n cc.cc_type = 2 in
+       if code = 1 && plain && not (has 80) then begin
+         if cc.cc_reqma then
+           spec opidx "C05_require_msgauth" (enqs = []) (Printf.sprintf "client %d: Access-Request without Message-Authenticator forwarded" c);
+         if cc.cc_reqmap && has 33 then
+           spec opidx "C05_require_msgauth_proxy" (enqs = []) (Printf.sprintf "client %d: Access-Request with Proxy-State and without Message-Authenticator forwarded" c)
+       end;
+       (* C01: the User-Password the server receives decrypts (its secret, the new authenticator) to what the
+          client sent (client secret, client authenticator), unless a configured rewrite names the attribute *)
+       List.iter (function
+           | [ sv; _; p ] ->
+               (match List.assoc_opt (int_of_string sv) !servers with
+                | Some sc when not (rw_touches 2 cc.cc_rwin) && not (rw_touches 2 sc.sc_rwout) ->
+                    let fwd = bytes_of_hex p in
+                    if wf_packet fwd then
+                      (match List.find_opt (fun (t, _, _) -> t = 2) attrs, List.find_opt (fun (t, _, _) -> t = 2) (attr_list fwd) with
+                       | Some (_, _, v), Some (_, _, v') ->
+                           let plain_c = rfc_dec md5 cc.cc_secret (take 16 (drop 4 pkt)) v
+                           and plain_s = rfc_dec md5 sc.sc_secret (take 16 (drop 4 fwd)) v' in
+                           spec opidx "C01_password_preserved" (plain_c = plain_s) (Printf.sprintf "User-Password of %d octets" (List.length v))
+                       | Some _, None -> spec opidx "C01_password_preserved" false "User-Password missing from the forwarded request"
+                       | _ -> ())
+                | _ -> ())
+           | _ -> ()) enqs;
+       List.iter (function
+           | sv :: _ ->
+               (match List.assoc_opt (int_of_string sv) !servers with
+                | Some sc ->
+                    let lp = int_of_n sc.sc_loopprev = 1 || (int_of_n sc.sc_loopprev = 255 && !options.o_loopprev) in
+                    if lp then spec opidx "C13_loop_prevented" (cstr cc.cc_name <> cstr sc.sc_name)
+                        (Printf.sprintf "request from client block %d forwarded to the server block of the same name" c)
+                | None -> ())
+           | [] -> ()) enqs
+   | _ -> ())
+
 let op_cpkt opidx impl_all toks =
   match toks with
   | [ _; _; _; _ ] when fs N0 ->
@@ -410,6 +464,7 @@ let op_cpkt opidx impl_all toks =
       note_enq impl_all;
       check_no_displace opidx impl_all c (bytes_of_hex pkt);
       check_dup opidx impl_all c (int_of_string now) pkt;
+      check_request_policy opidx impl_all c (bytes_of_hex pkt);
       let rq = { rq_created = z_of_int (int_of_string now); rq_refcount = n_of_int 1; rq_buf = Some (bytes_of_hex pkt); rq_replybuf = None;
                  rq_msg = None; rq_from = Some (nat_of_int c); rq_to = None; rq_origuser = None; rq_rqid = N0;
                  rq_rqauth = repeat N0 16; rq_newid = N0 } in
@@ -419,7 +474,30 @@ let op_cpkt opidx impl_all toks =
       print_outs opidx o ~wake_first:false; flush_misses opidx; print_state opidx s
   | _ -> ()
 
+(* reply-side policy on the implementation's own observations: nothing is delivered for a slot that is empty or
+   whose request was never transmitted (C04); an authentic answer to a transmitted request or probe clears the
+   server's unanswered count (C09 fail back) *)
+let last_reply_valid = ref false     (* the reply was built correctly signed for the slot it names (sreply without flags) *)
+let check_reply_policy opidx impl_all srv (pkt : n list) =
+  let id = match pkt with _ :: i :: _ -> int_of_n i | _ -> -1 in
+  match Hashtbl.find_opt impl_prev srv with
+  | Some (_, _, pre) ->
+      let slot = List.find_opt (fun sl -> sl.i_id = id) pre in
+      let replies = impl_events impl_all "reply" in
+      (match slot with
+       | None -> spec opidx "C04_needs_outstanding" (replies = []) (Printf.sprintf "server %d id %d: no request outstanding" srv id)
+       | Some sl when sl.i_tries = 0 -> spec opidx "C04_needs_transmitted" (replies = []) (Printf.sprintf "server %d id %d: request queued but never transmitted" srv id)
+       | Some _ ->
+           let probe = match Hashtbl.find_opt txhist (srv, id) with
+             | Some r -> String.length r.tx_bytes >= 2 && String.sub r.tx_bytes 0 2 = "0c" | None -> false in
+           if replies <> [] || (!last_reply_valid && probe) then
+             (match List.find_map (fun t -> match parse_impl_srv t with Some (sv, (lost, _, _)) when sv = srv -> Some lost | _ -> None) (impl_events impl_all "srv") with
+              | Some lost -> spec opidx "C09_answer_clears_unanswered" (lost = 0) (Printf.sprintf "server %d answered, unanswered count still %d" srv lost)
+              | None -> ()))
+  | None -> ()
+
 let do_reply opidx impl_all s srv now rnd (pkt : n list) =
+  check_reply_policy opidx impl_all srv pkt;
   (* the request this reply would answer, as the model sees it *)
   (let id = match pkt with _ :: i :: _ -> int_of_n i | _ -> 0 in
    let sv = get_server s (nat_of_int srv) in
@@ -456,7 +534,7 @@ let do_reply opidx impl_all s srv now rnd (pkt : n list) =
 
 let op_spkt opidx impl_all toks =
   match toks with
-  | [ srv; now; rnd; pkt ] -> do_reply opidx impl_all (get_state ()) (int_of_string srv) (int_of_string now) (bytes_of_hex rnd) (bytes_of_hex pkt)
+  | [ srv; now; rnd; pkt ] -> last_reply_valid := false; do_reply opidx impl_all (get_state ()) (int_of_string srv) (int_of_string now) (bytes_of_hex rnd) (bytes_of_hex pkt)
   | _ -> ()
 
 (* sreply: the reply is built here from the model's own view of the outstanding request *)
@@ -500,6 +578,7 @@ let op_sreply opidx impl_all toks =
       if has "badma" && !maoff >= 0 then Bytes.set pkt (!maoff + 3) (Char.chr (Char.code (Bytes.get pkt (!maoff + 3)) lxor 1));
       let pl = bytes_of_string (Bytes.to_string pkt) in
       pr "obs %d sreply-bytes %s\n" opidx (hex_of_bytes pl);
+      last_reply_valid := (flags = "-" && List.mem (int_of_string code) [ 2; 3; 5; 11 ]);
       do_reply opidx impl_all s srv (int_of_string now) (bytes_of_hex rnd) pl
   | _ -> ()
 
